@@ -66,7 +66,11 @@ def detect(d, pids, tier="quick"):
         rc, out = sh("git apply %s" % os.path.join(d, "patch.diff"), cwd=wt)
         if rc != 0: raise SystemExit("patch does not apply: " + out)
         for pid in pids:
+            ev = os.path.join(VERIF, "evidence", pid + ".json")
+            keep = open(ev).read() if os.path.exists(ev) else None     # evidence must describe runs on /repo itself
             rc, out = sh("./check %s --tier %s 2>&1" % (pid, tier), cwd=VERIF, env={"VERIF_REPO": wt}, timeout=3000)
+            if keep is not None:
+                open(ev, "w").write(keep)
             vio = [l for l in out.split("\n") if l.startswith("VIOLATION")]
             res[pid] = {"exit": rc, "violations": vio[:5], "summary": [l for l in out.split("\n") if " quick:" in l or " thorough:" in l][-1:],
                         "detail": [l for l in out.split("\n") if l.startswith("  ")][:4]}
